@@ -93,6 +93,14 @@ func runC01(c *runCfg) error {
 		emitSession(c, cs)
 		id++
 	}
+	// stale data: bytes behind the startup terminator must never be read as part of a later message
+	junkSU := untypedMsg(startupBody([][2]string{{"user", "alice"}, {"database", "db1"}}, true, []byte("secret\x00")))
+	for _, pw := range [][]byte{msg('p', nil), msg('p', []byte{}), mPassword([]byte("")), msg('p', []byte("x"))} {
+		for mode := 0; mode < 3; mode++ {
+			emit("stale", "pw", junkSU, pw, conts[1], mode)
+			emit("stale", "accept", junkSU, pw, conts[2], mode)
+		}
+	}
 	// corpus: the pinned witness — wrong password followed by a query
 	emit("corpus", "pw", startups[0], mPassword([]byte("bad")), conts[1], 1)
 	emit("corpus", "pw", startups[0], mPassword([]byte("bad")), conts[2], 1)
@@ -198,6 +206,7 @@ func runC12(c *runCfg) error {
 			emit("valid", cfg, cat(untypedMsg(full), cont), nil)
 			emit("valid_bytewise", cfg, cat(untypedMsg(full), cont), bytewise(len(full)+4+len(cont)))
 			emit("junk", cfg, cat(untypedMsg(startupBody(ps, true, []byte("junk\x00more"))), cont), nil)
+			emit("junk_empty", cfg, cat(untypedMsg(startupBody(ps, true, []byte("select 1\x00"))), msg('Q', nil), mSync(), msg('P', nil), cont), nil)
 			// missing terminator / value: cut the body at every position
 			lim := len(full)
 			step := 1
@@ -304,6 +313,20 @@ func runC10(c *runCfg) error {
 			// huge declared lengths with truncated input
 			for _, dl := range []uint32{0x7fffffff, 0x80000000, 0x80000003, 0xffffffff, 0xfffffffb} {
 				emitSession(c, flatCase(id, "huge", cfg, cat(stdStartup, msgLen(t, dl, []byte("abc")), mSync()), nil))
+				id++
+			}
+		}
+		// exceeding messages while skipping to the next Sync, and after an exceeding extended message
+		for _, t1 := range []byte{'P', 'B', 'E', 'C', 'H'} {
+			for _, t2 := range types {
+				if c.tier != "thorough" && (int(t1)+int(t2)+L)%3 != 0 {
+					continue
+				}
+				body := make([]byte, L+9)
+				// the skipped body looks like protocol messages: it must not be interpreted
+				copy(body, cat(mSync(), mQuery([]byte("select 1")))[:min(L+9, 5+5+13)])
+				msgs := [][]byte{msg(t1, make([]byte, L+3)), msg(t2, body), mFlush(), mSync(), mQuery([]byte("select 1"))}
+				emitSession(c, lockCase(id, "discarding", cfg, stdStartup, msgs))
 				id++
 			}
 		}
